@@ -17,6 +17,10 @@ CHECKS = {
          "checked_add/sub_signed, signed_duration_since, operators (incl. std Duration and assign forms) on NaiveDateTime, NaiveDate and DateTime<FixedOffset>, checked_add/sub_days and the day/week iterators are compared with exact i128 arithmetic on instants and day numbers; failure is demanded exactly when the exact result is unrepresentable and operators must panic exactly then. Sampled with boundary-aimed generators, not exhaustive.",
          "Trusted base: R-cal / R-inst; operand values are built through constructors that C01/C07 verify.",
          "DESIGN.md section 3 C03"),
+ "C04": ("proptest over (UTC date-time, offset at one-second resolution, operation, argument) biased to the range ends/headroom, differential against a wall-clock model on integer day/second pairs",
+         "Construction from UTC and from wall clock, naive_local (documented panic exactly outside the range), every Datelike/Timelike accessor, Display/Debug, zone conversion, equality/order/hash on the instant (also across Utc/FixedOffset), all eleven with_* replacements, day/month stepping, with_time and with_ymd_and_hms are compared with a model that applies the operation to the wall-clock reading and accepts iff the new instant lies in [MIN_UTC, MAX_UTC]; no returned value may lie outside that interval. One thin band (an edit that would create a new wall date in the headroom) accepts None or the exact value, as DESIGN.md explains.",
+         "Trusted base: R-cal and the 10-line shift model in harness/src/props/c04.rs. Offsets are whole seconds so the nanosecond field is never touched by the model.",
+         "DESIGN.md section 3 C04"),
  "C06": ("proptest (edge-biased i128 model values, limit-straddling operand pairs) differential against exact i128 arithmetic, range invariant on every returned value",
          "Every constructor, accessor, checked/operator arithmetic form, Sum, std conversion and the Display text of TimeDelta is compared with exact i128 nanosecond arithmetic on millions of generated cases per run, with generators that aim operands at the range limits, at unit-constructor limits and at products that straddle the limit; every returned duration is re-read and must lie in the closed range. Sampled, not exhaustive.",
          "Trusted base: i128 arithmetic in the harness (harness/src/props/c06.rs); TimeDelta values are observed only through num_seconds/subsec_nanos, whose mutual consistency is itself checked.",
@@ -25,6 +29,14 @@ CHECKS = {
          "The validity predicate of all five constructors, accessors and single-field replacement, overflowing_add/sub_signed with day carry, wrapping operators, signed_duration_since (antisymmetry), offset shifts and NaiveDateTime arithmetic with leap operands are compared with an explicit timeline model in which the operand's leap second is the only one; the model itself is asserted against the documented examples at start-up.",
          "Trusted base: R-leap model in harness/src/props/c07.rs (~40 lines), validated against the fourteen documented examples on every run.",
          "DESIGN.md section 3 C07"),
+ "C08": ("proptest + exhaustive slices (all dates within 10 days of the range ends x 7 week starts; a 400-year cycle plus the range ends x all (month, weekday, n)) differential against R-cal",
+         "Month stepping with day clamp (u32 counts, operators), all seven date-field replacements and four time-field replacements on NaiveDate/NaiveDateTime over the full i32/u32 argument range, NaiveWeek bounds incl. the panicking forms, n-th weekday of a month by scanning, years_since on dates and zone-aware values, quarter, year_ce, num_days_in_month and Month::num_days are compared with the reference calendar.",
+         "Trusted base: R-cal. For years outside the date range Month::num_days may answer None or the calendar-correct length (documentation and behaviour differ; the statement only asks for calendar agreement).",
+         "DESIGN.md section 3 C08"),
+ "C17": ("proptest over stamps inside/outside the i64-nanosecond window, log-uniform/tie-making/invalid spans, offsets and digit counts, differential against floor/ceil arithmetic on i128 wall-clock stamps",
+         "duration_trunc/round/round_up on NaiveDateTime and DateTime<FixedOffset> must return exactly floor/ceil/nearest-ties-up multiples of the span on the wall-clock stamp with the offset kept, be idempotent while the result stays inside the window, and report DurationExceedsLimit / TimestampExceedsLimit exactly for the three stated causes, never panicking (incl. headroom wall clocks); round_subsecs/trunc_subsecs on NaiveTime, NaiveDateTime and DateTime for all digit counts with carry. Leap-second operands: no panic, valid values, sub-second idempotence only.",
+         "Trusted base: i128 div_euclid arithmetic (harness/src/props/c17.rs).",
+         "DESIGN.md section 3 C17"),
  "C19": ("exhaustive enumeration (7 weekdays, 12 months, 128x128 sets, 128x7x128 iteration interleavings, all name/letter-case masks, all integers in +/-70000 and 2^k neighbourhoods) + proptest integers/strings, against modular arithmetic and a bit/deque set model",
          "The finite part (cycles, numbering, all pairs of weekday sets, every front/back interleaving of every set from every start day, every letter-case variant, prefix and one-letter extension of every name) is enumerated completely on every run; numeric conversions are checked for every FromPrimitive entry point on enumerated neighbourhoods and random i64/u64 values biased to values congruent to valid numbers modulo 2^8/2^16/2^32; strings by mutation and arbitrary Unicode including case-folding look-alikes.",
          "Trusted base: literal name tables and modular arithmetic in harness/src/props/c19.rs.",
